@@ -22,7 +22,7 @@ def correspondence(ctx):
     cases = []
     n = ctx.n(60, 3000)
     for i in range(n):
-        c, kind = gens.cell(ctx.rng)
+        c, kind = gens.cell(ctx.rng, scaled=True)
         h = gens.hkl(ctx.rng)
         for mn, m in _mods():
             for f in ('cell_volume', 'form_a_mat', 'form_b_mat', 'form_a_mat_inv', 'cell_invert'):
@@ -94,7 +94,7 @@ def oracle(ctx, hints=()):
     kinds = {}
     sample = None
     for i in range(n):
-        c, kind = gens.cell(ctx.rng)
+        c, kind = gens.cell(ctx.rng, scaled=True)
         hs = [gens.hkl(ctx.rng) for _ in range(3)]
         kinds[kind] = kinds.get(kind, 0) + 1
         key = tuple(round(x, 9) for x in c)
